@@ -14,7 +14,8 @@ LEVEL = "proof"
 RULE = ("kinds: plain (random rows, arity 1-3, constructed with no mappings; observations/mask given or not), reuse (construct a "
         "superset screen, then the screen under test from a random sub-list of its rows with the superset's own mappings: "
         "mappings strictly larger than the data, the train/test situation), shuffled (as reuse but the supplied mappings are "
-        "hand-permuted, so stored order != sorted order), empty (0 rows, with or without supplied mappings), each as a Screen "
+        "hand-permuted, so stored order != sorted order), empty (0 rows, with or without supplied mappings), nan_dose (NaN doses; "
+        "implementation-side predicate only), each as a Screen "
         "or as ExperimentSpace.from_screen; 1-3 consecutive save_h5/load_h5 cycles through real h5py files. Names: '', "
         "non-ASCII incl. 3- and 4-byte UTF-8, unequal lengths, inner/trailing blanks; control name '', ASCII, non-ASCII; doses incl. "
         "-0.0, subnormal, inf; observations as raw bit patterns incl. -0.0, subnormals, +-inf, quiet/signalling NaN payloads, "
@@ -308,8 +309,18 @@ def gen(rng, tier):
         if sel is not None and not any(sel):
             sel[0] = True
         yield dict(kind="space", rows=rows, arity=a, ctrl=ctrl, obs_given=True, mask_given=True, sel=sel,
-                   shuffle=[rng.random() for _ in range(5)] if reuse and rng.random() < 0.4 else None,
+                   shuffle=[rng.random() for _ in range(5)] if reuse and rng.random() < 0.6 else None,
                    k=rng.choice([1, 2, 3]), space=True)
+    for _ in range(10 * N):  # NaN doses: outside the model's dose keys; predicate on the implementation only (wire=None)
+        ctrl = rng.choice(MYCTRLS)
+        rows, a = _rows(rng, n=rng.choice([2, 3, 4, 6]), ctrl=ctrl)
+        for r in rows:
+            for t in r["t"]:
+                if rng.random() < 0.4:
+                    t[1] = float("nan")
+        rows[0]["t"][0][1] = float("nan")
+        yield dict(kind="nan_dose", rows=rows, arity=a, ctrl=ctrl, obs_given=True, mask_given=True, sel=None, shuffle=None,
+                   k=rng.choice([1, 2]), space=False)
     for i in range(8 * N):  # screens without rows (constructible): fresh (empty) mappings / supplied non-empty mappings
         ctrl = rng.choice(MYCTRLS)
         rows, a = _rows(rng, n=[0, 2, 0, 3][i % 4], ctrl=ctrl)
@@ -358,7 +369,7 @@ def _features(desc, d_eff, n_rows, strict):
 def _cmp_pair(m, i):
     if m == i:
         return None
-    names = ["object", "file"]
+    names = ["object", "file", "control name", "arity"]
     for j in range(min(len(m), len(i))):
         if m[j] != i[j]:
             sub = ""
@@ -369,7 +380,9 @@ def _cmp_pair(m, i):
                         break
                 else:
                     sub = " lengths %d vs %d" % (len(m[j]), len(i[j]))
-            return "%s differs:%s" % (names[j] if j < 2 else j, sub)
+            else:
+                sub = " model %s impl %s" % (common.short(m[j], 200), common.short(i[j], 200))
+            return "%s differs:%s" % (names[j] if j < len(names) else j, sub)
     return "shapes differ"
 
 
@@ -424,8 +437,11 @@ def run(desc):
                     fdf = _first_diff(files[0], files[c])
                     if fdf is not None:
                         pred = "file_changed:%s: file of cycle %d differs from the first file" % (fdf, c + 1)
+            if desc["kind"] == "nan_dose":
+                return dict(wire=None, impl=None, pred=pred, features=feats)
             if impl is None:
-                impl = [sl.canon_screen(cur), _canon_file(os.path.join(tmp, "screen_%d.h5" % (k - 1)))]
+                impl = [sl.canon_screen(cur), _canon_file(os.path.join(tmp, "screen_%d.h5" % (k - 1))),
+                        s2l(str(cur.control_treatment_name)), int(np.asarray(cur.treatment_names).shape[1])]
             wire = [0, sl.wire_mk_args(_with_o(dwire)), wsub, k]
         else:
             sp0 = ExperimentSpace.from_screen(s0)
